@@ -527,3 +527,41 @@ def distreg_trace(rng, nops=10, preds=("loc", "scale")):
         o["builder_vars_ok"] = all(current[p] is pvars.get(p) or True for p in current)
         ev.append(o)
     return {"hdr": {"kind": "distreg"}, "ev": ev}
+
+
+# ---- EngineBuilder: the result depends on the configuration, not on the order of the setter calls ------------
+def builder_order_events(rng, nperm=6):
+    import hashlib
+
+    def logp(s):
+        return -0.5 * jnp.sum((s["x"] - 1.0) ** 2) - 0.5 * (s["y"] / 2.0) ** 2
+
+    steps = {
+        "model": lambda b: b.set_model(gs.DictInterface(logp)),
+        "init": lambda b: b.set_initial_values({"x": jnp.array([0.1, 0.2], jnp.float32), "y": jnp.float32(0.3)}),
+        "epochs": lambda b: b.set_epochs([EpochConfig(EpochType.INITIAL_VALUES, 1, 1, None), EpochConfig(EpochType.BURNIN, 4, 1, None),
+                                          EpochConfig(EpochType.POSTERIOR, 6, 2, None)]),
+        "jitter": lambda b: b.set_jitter_fns({"x": lambda k, v: v + jax.random.uniform(k, v.shape, v.dtype),
+                                              "y": lambda k, v: v * 2.0}),
+        "kernels": lambda b: (b.add_kernel(gs.RWKernel(["x"], initial_step_size=0.5)),
+                              b.add_kernel(gs.RWKernel(["y"], initial_step_size=0.8))),
+        "included": lambda b: setattr(b, "positions_included", ["y"]),
+        "engine_seed": lambda b: b.set_engine_seed(5),
+    }
+    names = sorted(steps)
+    perms = [names] + [rng.sample(names, len(names)) for _ in range(nperm - 1)]
+    evs = []
+    for perm in perms:
+        b = gs.EngineBuilder(seed=3, num_chains=2)
+        for s in perm:
+            steps[s](b)
+        b.show_progress = False
+        eng = b.build()
+        eng.sample_all_epochs()
+        res = eng.get_results()
+        smp = res.get_samples()
+        h = hashlib.sha256()
+        for k in sorted(smp):
+            h.update(np.ascontiguousarray(np.asarray(smp[k])).tobytes())
+        evs.append({"ev": "builder_order", "order": perm, "digest": h.hexdigest()[:16], "keys": sorted(smp)})
+    return evs
